@@ -365,7 +365,7 @@ def check_are_named(repo: Repo, res: Result) -> FuncInfo | None:
     if an is None or an.is_abstract:
         res.add("C05.R1", construct, False, "LayerRule.are_named no longer exists", kind="structural")
         return None
-    view = dview(repo, an, lr, family(repo, lr), tag="lr")
+    view = dview(repo, an, lr, family(repo, lr), tag="lr", normalise=True)
     layers_param = an.param_names[1] if len(an.param_names) > 1 else None
     # the call that hands module specifications to the wrapped rule: a Rule method called with an argument
     handoffs: list[tuple[ast.Call, FuncInfo]] = []
@@ -406,7 +406,7 @@ def check_are_named(repo: Repo, res: Result) -> FuncInfo | None:
         cs = [x for x in cs if not x.is_abstract and (x.cls is None or x.cls.fq in lr_mro)]
         if len(cs) != 1 or how != "repo" or isinstance(cs[0].node, ast.Lambda):
             return None
-        return dview(repo, cs[0], lr, family(repo, lr), tag="lr")
+        return dview(repo, cs[0], lr, family(repo, lr), tag="lr", normalise=True)
 
     prods = [_whole_layer_handed_over(repo, T, view, p) for p in productions(view, arg, follow=follow)]
     if not prods or any(p.elt is None for p in prods):
@@ -458,6 +458,26 @@ def _flatten_loops(view: FuncInfo, loops: list, cnds: list, rounds: int = 4, ali
                 comp, flat = _strip_transparent(single_value(view, src.args[0])), True
         elif isinstance(src, (ast.ListComp, ast.GeneratorExp, ast.SetComp)):
             comp = src
+        elif isinstance(src, ast.Name) and any(isinstance(tk, ast.Name) and tk.id == src.id for tk, _ik in loops[:-1]):
+            # the innermost loop ranges over the variable of an enclosing loop (`for group in groups: for m in group`): when the
+            # enclosing loop ranges over a comprehension / a collection with one producing event, `group` stands for its element
+            k = max(i for i, (tk, _ik) in enumerate(loops[:-1]) if isinstance(tk, ast.Name) and tk.id == src.id)
+            outer_src = _strip_transparent(single_value(view, loops[k][1]))
+            gens_k = elt_k = None
+            ifs_k: list = []
+            if isinstance(outer_src, (ast.ListComp, ast.GeneratorExp, ast.SetComp)):
+                gens_k = [(g.target, g.iter) for g in outer_src.generators]
+                ifs_k = [(c, True) for g in outer_src.generators for c in g.ifs]
+                elt_k = outer_src.elt
+            elif isinstance(outer_src, ast.Name) and outer_src.id not in view.param_names:
+                prods_k = productions(view, outer_src)
+                if len(prods_k) == 1 and prods_k[0].elt is not None and prods_k[0].loops:
+                    gens_k, ifs_k, elt_k = list(prods_k[0].loops), list(prods_k[0].conds), prods_k[0].elt
+            if gens_k is None or elt_k is None:
+                break
+            loops = loops[:k] + gens_k + loops[k + 1:-1] + [(t, elt_k)]
+            cnds = ifs_k + cnds
+            continue
         elif isinstance(src, ast.Name) and src.id not in view.param_names:
             prods = productions(view, src)
             if len(prods) == 1 and prods[0].elt is not None and prods[0].loops:
@@ -470,6 +490,8 @@ def _flatten_loops(view: FuncInfo, loops: list, cnds: list, rounds: int = 4, ali
                     loops = loops[:-1] + q.loops
                 elif isinstance(q.elt, ast.Name) and q.elt.id in target_names(q.loops[-1][0]) and isinstance(q.loops[-1][0], ast.Name):
                     loops = loops[:-1] + q.loops[:-1] + [(t, q.loops[-1][1])]
+                    if alias is not None and isinstance(t, ast.Name) and t.id != q.elt.id:
+                        alias[q.elt.id] = ast.Name(id=t.id, ctx=ast.Load())
                 else:
                     loops = loops[:-1] + q.loops + [(t, ast.List(elts=[q.elt], ctx=ast.Load()))]
                 cnds = q.conds + cnds
@@ -487,10 +509,25 @@ def _flatten_loops(view: FuncInfo, loops: list, cnds: list, rounds: int = 4, ali
             loops = loops[:-1] + gens
         elif isinstance(comp.elt, ast.Name) and isinstance(gens[-1][0], ast.Name) and comp.elt.id == gens[-1][0].id:
             loops = loops[:-1] + gens[:-1] + [(t, gens[-1][1])]
+            if alias is not None and isinstance(t, ast.Name) and t.id != comp.elt.id:
+                alias[comp.elt.id] = ast.Name(id=t.id, ctx=ast.Load())  # conditions written on the inner variable speak about t
         else:
             loops = loops[:-1] + gens + [(t, ast.List(elts=[comp.elt], ctx=ast.Load()))]
         cnds = ifs + cnds
     return loops, cnds
+
+
+def _other_filter_attribute(repo: Repo, flag: ast.expr, mvars: set[str]) -> bool:
+    """`m.<attr>` for a member of the ModuleFilter classes other than identifier_is_regex (identifier_is_parent_module ...)."""
+    if not (isinstance(flag, ast.Attribute) and isinstance(flag.value, ast.Name) and flag.value.id in mvars and flag.attr != "identifier_is_regex"):
+        return False
+    base = repo.classes.get("pytestarch.eval_structure.evaluable_architecture.ModuleFilter")
+    if base is None:
+        return False
+    for ci in [base, *repo.subclasses(base)]:
+        if flag.attr in ci.methods or flag.attr in getattr(ci, "ann_attrs", []):
+            return True
+    return False
 
 
 def _judge_lowering(repo: Repo, T, view: FuncInfo, p: Production, layers_param: str | None) -> tuple[str, str]:
@@ -524,7 +561,7 @@ def _judge_lowering(repo: Repo, T, view: FuncInfo, p: Production, layers_param: 
 
             if not equivalent(ff, atom("IS_REGEX")):
                 return "violated", f"the regex flag handed to the rule is `{norm(flag, 40)}`, not the module filter's own `identifier_is_regex`: a layer is not lowered to its module filters with their own regex flag"
-        elif not (names_in(flag) & mvars):
+        elif not (names_in(flag) & mvars) or _other_filter_attribute(repo, flag, mvars):
             return "violated", f"the regex flag handed to the rule is `{norm(flag, 40)}`, not the module filter's own `identifier_is_regex`: a layer is not lowered to its module filters with their own regex flag"
         else:
             return "undecided", f"the regex flag `{norm(flag, 50)}` is derived from the module filter in an unrecognised way"
